@@ -66,16 +66,28 @@ func (m *SwapMetadata) Validate() error {
 	}
 	switch amountStrategy := m.AmountStrategy.(type) {
 	case *SwapMetadata_ExactAmountIn:
+		if amountStrategy.ExactAmountIn == nil || amountStrategy.ExactAmountIn.MinAmountOut.IsNil() {
+			return fmt.Errorf("min amount out cannot be empty")
+		}
 		if !amountStrategy.ExactAmountIn.MinAmountOut.IsPositive() {
 			return fmt.Errorf("min amount out must be positive")
 		}
 
 	case *SwapMetadata_ExactAmountOut:
+		if amountStrategy.ExactAmountOut == nil || amountStrategy.ExactAmountOut.AmountOut.IsNil() {
+			return fmt.Errorf("amount out cannot be empty")
+		}
+		if !amountStrategy.ExactAmountOut.AmountOut.IsPositive() {
+			return fmt.Errorf("amount out must be positive")
+		}
 		if amountStrategy.ExactAmountOut.Change != nil {
 			if err := amountStrategy.ExactAmountOut.Change.Validate(); err != nil {
 				return err
 			}
 		}
+
+	default:
+		return fmt.Errorf("amount strategy cannot be empty")
 	}
 
 	if m.Forward != nil {
